@@ -117,6 +117,25 @@ pub enum KeyForm {
     Compressed,
     Uncompressed,
     XOnly,
+    /// per key: labels ending in an odd digit are uncompressed, the others compressed
+    Mixed,
+    /// the opposite assignment
+    MixedAlt,
+}
+
+/// The serialisation form of one key under a (possibly mixed) case form.
+pub fn form_of(label: &str, form: KeyForm) -> KeyForm {
+    match form {
+        KeyForm::Mixed | KeyForm::MixedAlt => {
+            let odd = label.bytes().last().map(|b| b.is_ascii_digit() && (b - b'0') % 2 == 1).unwrap_or(false);
+            if odd == (form == KeyForm::Mixed) {
+                KeyForm::Uncompressed
+            } else {
+                KeyForm::Compressed
+            }
+        }
+        f => f,
+    }
 }
 
 /// `bitcoin::PublicKey` keys.
@@ -140,7 +159,7 @@ macro_rules! hash_env_impl {
 impl Env<bitcoin::PublicKey> for PkEnv {
     fn pk(&self, l: &str) -> bitcoin::PublicKey {
         let k = key(l);
-        match self.form {
+        match form_of(l, self.form) {
             KeyForm::Uncompressed => bitcoin::PublicKey::new_uncompressed(k.pk),
             _ => bitcoin::PublicKey::new(k.pk),
         }
@@ -163,10 +182,10 @@ pub struct DefEnv {
 impl Env<DefiniteDescriptorKey> for DefEnv {
     fn pk(&self, l: &str) -> DefiniteDescriptorKey {
         let k = key(l);
-        let single = match self.form {
-            KeyForm::Compressed => SinglePubKey::FullKey(bitcoin::PublicKey::new(k.pk)),
+        let single = match form_of(l, self.form) {
             KeyForm::Uncompressed => SinglePubKey::FullKey(bitcoin::PublicKey::new_uncompressed(k.pk)),
             KeyForm::XOnly => SinglePubKey::XOnly(k.xonly),
+            _ => SinglePubKey::FullKey(bitcoin::PublicKey::new(k.pk)),
         };
         let origin = if self.with_origin {
             Some((k.fingerprint, "m/7".parse::<DerivationPath>().unwrap()))
@@ -186,10 +205,10 @@ pub struct RefEnc {
 impl EncEnv for RefEnc {
     fn key_bytes(&self, l: &str) -> Vec<u8> {
         let k = key(l);
-        match self.form {
-            KeyForm::Compressed => k.compressed(),
+        match form_of(l, self.form) {
             KeyForm::Uncompressed => k.uncompressed(),
             KeyForm::XOnly => k.x32(),
+            _ => k.compressed(),
         }
     }
     fn key_hash(&self, l: &str) -> Vec<u8> {
